@@ -11,8 +11,12 @@ extern "C" {
 #include "a/trajpoly5.h"
 #include "a/trajpoly7.h"
 }
+#include <limits>
 typedef mpq_class Q;
-static double const U_ = 1.1102230246251565e-16;
+typedef a_real R; // float or double build of the library
+static double const U_ = double(std::numeric_limits<R>::epsilon()) / 2;
+// results in the subnormal range of a_real carry absolute, not relative precision
+static double const FLOOR_ = sizeof(R) == 8 ? 1e-300 : 4 * double(std::numeric_limits<R>::denorm_min());
 
 enum { L_P3, L_P5, L_P7, L_ALL_NONZERO, L_T_POW2, L_T_REAL, L_T_SMALL, L_T_LARGE, L_INT_DATA, L_REAL_DATA, L_POLY, L_POLY_N0, L_POLY_N1, L_QUERY_OUTSIDE, L_J0_NE_J1 };
 static char const *const labels[] = {"cubic", "quintic", "septic", "all_boundary_derivatives_nonzero", "duration_power_of_two", "duration_real", "duration_lt_1/16", "duration_gt_16",
@@ -49,9 +53,9 @@ static Q deriv_at(std::vector<Q> const &c, unsigned k, Q const &x, Q *absum)
     return s;
 }
 
-static double gen_T(Tape &t, Ctx &cx)
+static R gen_T(Tape &t, Ctx &cx)
 {
-    double T;
+    R T;
     if (t.coin())
     {
         int k = int(t.u8() % 21) - 10;
@@ -61,7 +65,7 @@ static double gen_T(Tape &t, Ctx &cx)
     else
     {
         // log-uniform in [1e-3, 1e3]
-        double e = (double(t.u16()) / 65535.0) * 6.0 - 3.0;
+        R e = (R(t.u16()) / 65535.0) * 6.0 - 3.0;
         T = std::pow(10.0, e);
         cx.label(L_T_REAL);
     }
@@ -69,17 +73,17 @@ static double gen_T(Tape &t, Ctx &cx)
     if (T > 16) { cx.label(L_T_LARGE); }
     return T;
 }
-static double gen_val(Tape &t, bool ints, bool force_nonzero)
+static R gen_val(Tape &t, bool ints, bool force_nonzero)
 {
-    double v;
+    R v;
     if (ints)
     {
-        v = double(int(t.u16() % 2001) - 1000);
+        v = R(int(t.u16() % 2001) - 1000);
         if (force_nonzero && v == 0) { v = 7; }
     }
     else
     {
-        v = std::ldexp(double(int32_t(t.u32() | 1)) / 2147483648.0, int(t.u8() % 21) - 10);
+        v = std::ldexp(R(int32_t(t.u32() | 1)) / 2147483648.0, int(t.u8() % 21) - 10);
     }
     return v;
 }
@@ -123,10 +127,10 @@ static std::vector<Q> solve_bvp(unsigned m, Q const &T, std::vector<Q> const &at
 
 static void case_traj(Tape &t, Ctx &cx, unsigned m)
 {
-    double T = gen_T(t, cx);
+    R T = gen_T(t, cx);
     bool ints = t.coin();
     bool allnz = (t.u8() % 4) != 0;
-    double d0[4] = {0, 0, 0, 0}, d1[4] = {0, 0, 0, 0};
+    R d0[4] = {0, 0, 0, 0}, d1[4] = {0, 0, 0, 0};
     for (unsigned k = 0; k < m; ++k)
     {
         d0[k] = gen_val(t, ints, allnz);
@@ -149,7 +153,7 @@ static void case_traj(Tape &t, Ctx &cx, unsigned m)
     a_trajpoly3 c3;
     a_trajpoly5 c5;
     a_trajpoly7 c7;
-    double *cc;
+    R *cc;
     if (m == 2) { a_trajpoly3_gen(&c3, T, d0[0], d1[0], d0[1], d1[1]); cc = c3.c; }
     else if (m == 3) { a_trajpoly5_gen(&c5, T, d0[0], d1[0], d0[1], d1[1], d0[2], d1[2]); cc = c5.c; }
     else { a_trajpoly7_gen(&c7, T, d0[0], d1[0], d0[1], d1[1], d0[2], d1[2], d0[3], d1[3]); cc = c7.c; }
@@ -158,8 +162,8 @@ static void case_traj(Tape &t, Ctx &cx, unsigned m)
         a_trajpoly3 w3;
         a_trajpoly5 w5;
         a_trajpoly7 w7;
-        double xq = T / 3, *wc;
-        double g[4] = {0, 0, 0, 0}, h[4] = {0, 0, 0, 0}, gb[4][8], hb[4][8];
+        R xq = T / 3, *wc;
+        R g[4] = {0, 0, 0, 0}, h[4] = {0, 0, 0, 0}, gb[4][8], hb[4][8];
         memset(gb, 0, sizeof(gb));
         memset(hb, 0, sizeof(hb));
         if (m == 2)
@@ -186,7 +190,7 @@ static void case_traj(Tape &t, Ctx &cx, unsigned m)
             w7.c0(gb[0]); w7.c1(gb[1]); w7.c2(gb[2]); w7.c3(gb[3]);
             a_trajpoly7_c0(&c7, hb[0]); a_trajpoly7_c1(&c7, hb[1]); a_trajpoly7_c2(&c7, hb[2]); a_trajpoly7_c3(&c7, hb[3]);
         }
-        VP_CHECK(cx, memcmp(wc, cc, sizeof(double) * n) == 0, "traj:member_gen_differs", "trajpoly%u: the C++ member gen() and a_trajpoly%u_gen() give different coefficients for the same arguments", 2 * m - 1, 2 * m - 1);
+        VP_CHECK(cx, memcmp(wc, cc, sizeof(R) * n) == 0, "traj:member_gen_differs", "trajpoly%u: the C++ member gen() and a_trajpoly%u_gen() give different coefficients for the same arguments", 2 * m - 1, 2 * m - 1);
         VP_CHECK(cx, memcmp(g, h, sizeof(g)) == 0, "traj:member_eval_differs", "trajpoly%u: member pos/vel/acc/jer differ from the C functions at x=%.17g", 2 * m - 1, xq);
         VP_CHECK(cx, memcmp(gb, hb, sizeof(gb)) == 0, "traj:member_accessor_differs", "trajpoly%u: member c0..c3 differ from the C functions", 2 * m - 1);
     }
@@ -197,7 +201,7 @@ static void case_traj(Tape &t, Ctx &cx, unsigned m)
             cx.fail("traj:nonfinite_coefficient", "coefficient %u is not finite for moderate data (T=%.17g)", i, T);
         }
     }
-    auto ev = [&](unsigned k, double x) -> double {
+    auto ev = [&](unsigned k, R x) -> R {
         if (m == 2) { return k == 0 ? a_trajpoly3_pos(&c3, x) : k == 1 ? a_trajpoly3_vel(&c3, x) : a_trajpoly3_acc(&c3, x); }
         if (m == 3) { return k == 0 ? a_trajpoly5_pos(&c5, x) : k == 1 ? a_trajpoly5_vel(&c5, x) : a_trajpoly5_acc(&c5, x); }
         return k == 0 ? a_trajpoly7_pos(&c7, x) : k == 1 ? a_trajpoly7_vel(&c7, x) : k == 2 ? a_trajpoly7_acc(&c7, x) : a_trajpoly7_jer(&c7, x);
@@ -219,12 +223,12 @@ static void case_traj(Tape &t, Ctx &cx, unsigned m)
     VP_CHECK(cx, ev(1, 0.0) == d0[1], "traj:start_velocity", "vel(0) = %.17g, requested %.17g", ev(1, 0.0), d0[1]);
     if (m >= 3)
     {
-        double a = ev(2, 0.0);
+        R a = ev(2, 0.0);
         VP_CHECK(cx, std::fabs(a - d0[2]) <= 2 * U_ * 2 * std::fabs(d0[2]), "traj:start_acceleration", "acc(0) = %.17g, requested %.17g", a, d0[2]);
     }
     if (m >= 4)
     {
-        double j = ev(3, 0.0);
+        R j = ev(3, 0.0);
         VP_CHECK(cx, std::fabs(j - d0[3]) <= 2 * U_ * 4 * std::fabs(d0[3]), "traj:start_jerk", "jer(0) = %.17g, requested %.17g", j, d0[3]);
     }
     // stored polynomial, exactly
@@ -239,7 +243,7 @@ static void case_traj(Tape &t, Ctx &cx, unsigned m)
         for (unsigned i = 0; i < n; ++i)
         {
             double err = qabs_d(c[i] - ideal[i]);
-            double scale = U_ * S0 / Ti + 1e-300;
+            double scale = U_ * S0 / Ti + FLOOR_;
             cx.metric(1, err / scale);
             if (!(err <= 16384 * scale))
             {
@@ -257,14 +261,14 @@ static void case_traj(Tape &t, Ctx &cx, unsigned m)
             // the k-th derivative weights coefficient i by i(i-1)..(i-k+1) <= falling(2m-1, k)
             double fall = 1;
             for (unsigned j = 0; j < k; ++j) { fall *= double(n - 1 - j); }
-            double scale = U_ * S0 / Tk * fall + 1e-300;
+            double scale = U_ * S0 / Tk * fall + FLOOR_;
             double e1 = qabs_d(exact - Q(d1[k]));
             cx.metric(0, e1 / scale);
             static char const *const nm[] = {"position", "velocity", "acceleration", "jerk"};
             if (!(e1 <= 16384 * scale)) { cx.fail("traj:end_condition", "trajpoly%u: final %s of the stored polynomial is %.17g, requested %.17g (error %.3g u*scale)", 2 * m - 1, nm[k], exact.get_d(), d1[k], e1 / scale); }
             if (k < nder)
             {
-                double g = ev(k, T);
+                R g = ev(k, T);
                 double e2 = std::fabs(g - d1[k]);
                 if (!(e2 <= 32768 * scale)) { cx.fail("traj:end_value", "trajpoly%u: %s(T) = %.17g, requested %.17g (error %.3g u*scale)", 2 * m - 1, nm[k], g, d1[k], e2 / scale); }
             }
@@ -273,10 +277,10 @@ static void case_traj(Tape &t, Ctx &cx, unsigned m)
     }
     // (4) accessors = exact successive derivative coefficients of the stored polynomial (<= 2 ulp)
     {
-        double buf[8];
+        R buf[8];
         for (unsigned k = 0; k <= (m == 4 ? 3u : 2u); ++k)
         {
-            for (double &b : buf) { b = 777.25; }
+            for (R &b : buf) { b = 777.25; }
             if (m == 2) { k == 0 ? a_trajpoly3_c0(&c3, buf) : k == 1 ? a_trajpoly3_c1(&c3, buf) : a_trajpoly3_c2(&c3, buf); }
             else if (m == 3) { k == 0 ? a_trajpoly5_c0(&c5, buf) : k == 1 ? a_trajpoly5_c1(&c5, buf) : a_trajpoly5_c2(&c5, buf); }
             else { k == 0 ? a_trajpoly7_c0(&c7, buf) : k == 1 ? a_trajpoly7_c1(&c7, buf) : k == 2 ? a_trajpoly7_c2(&c7, buf) : a_trajpoly7_c3(&c7, buf); }
@@ -286,7 +290,7 @@ static void case_traj(Tape &t, Ctx &cx, unsigned m)
                 for (unsigned j = 0; j < k; ++j) { f *= (i + k - j); }
                 Q want = c[i + k] * f;
                 double err = qabs_d(Q(buf[i]) - want);
-                if (!(err <= 2 * 2 * U_ * qabs_d(want) + 1e-320)) { cx.fail("traj:accessor", "trajpoly%u c%u[%u] = %.17g, exact derivative coefficient %.17g", 2 * m - 1, k, i, buf[i], want.get_d()); }
+                if (!(err <= 2 * 2 * U_ * qabs_d(want) + FLOOR_)) { cx.fail("traj:accessor", "trajpoly%u c%u[%u] = %.17g, exact derivative coefficient %.17g", 2 * m - 1, k, i, buf[i], want.get_d()); }
             }
             if (n - k < 8) { VP_CHECK(cx, buf[n - k] == 777.25, "traj:accessor_overrun", "c%u wrote more than %u coefficients", k, n - k); }
         }
@@ -294,14 +298,14 @@ static void case_traj(Tape &t, Ctx &cx, unsigned m)
     // (5) pos/vel/acc/jer(x) = exact derivatives of the stored polynomial within the Horner bound
     for (unsigned q = 0; q < 4; ++q)
     {
-        double x;
+        R x;
         switch (t.u8() % 6)
         {
         case 0: x = T / 2; break;
         case 1: x = T; break;
-        case 2: x = T * (double(t.u16()) / 65535.0); break;
-        case 3: x = -T * (double(t.u8()) / 255.0); cx.label(L_QUERY_OUTSIDE); break;
-        case 4: x = T * (1 + double(t.u8()) / 255.0); cx.label(L_QUERY_OUTSIDE); break;
+        case 2: x = T * (R(t.u16()) / 65535.0); break;
+        case 3: x = -T * (R(t.u8()) / 255.0); cx.label(L_QUERY_OUTSIDE); break;
+        case 4: x = T * (1 + R(t.u8()) / 255.0); cx.label(L_QUERY_OUTSIDE); break;
         default: x = std::ldexp(T, -int(t.u8() % 30)); break;
         }
         Q qx(x);
@@ -309,9 +313,9 @@ static void case_traj(Tape &t, Ctx &cx, unsigned m)
         {
             Q sa;
             Q exact = deriv_at(c, k, qx, &sa);
-            double g = ev(k, x);
+            R g = ev(k, x);
             double err = qabs_d(Q(g) - exact);
-            double bound = (2.0 * n + 6) * U_ * qabs_d(sa) * 4 + 1e-300;
+            double bound = (2.0 * n + 6) * U_ * qabs_d(sa) * 4 + FLOOR_;
             cx.metric(2, err / bound);
             static char const *const nm[] = {"pos", "vel", "acc", "jer"};
             if (!(err <= bound)) { cx.fail("traj:not_derivative", "trajpoly%u %s(%.17g) = %.17g, exact %u-th derivative of the stored position polynomial is %.17g (error %.3g, Horner bound %.3g)", 2 * m - 1, nm[k], x, g, k, exact.get_d(), err, bound); }
@@ -323,21 +327,21 @@ static void case_poly(Tape &t, Ctx &cx)
 {
     unsigned n = t.u8() % 14;
     bool ints = t.coin();
-    std::vector<double> a(n);
-    for (auto &v : a) { v = ints ? double(int(t.u8()) - 128) : std::ldexp(double(int32_t(t.u32())) / 2147483648.0, int(t.u8() % 21) - 10); }
-    double x = ints ? double(int(t.u8() % 21) - 10) : std::ldexp(double(int32_t(t.u32())) / 2147483648.0, int(t.u8() % 9) - 4);
+    std::vector<R> a(n);
+    for (auto &v : a) { v = ints ? R(int(t.u8()) - 128) : std::ldexp(R(int32_t(t.u32())) / 2147483648.0, int(t.u8() % 21) - 10); }
+    R x = ints ? R(int(t.u8() % 21) - 10) : std::ldexp(R(int32_t(t.u32())) / 2147483648.0, int(t.u8() % 9) - 4);
     cx.label(L_POLY);
     if (n == 0) { cx.label(L_POLY_N0); }
     if (n == 1) { cx.label(L_POLY_N1); }
     cx.hash.add(1000 + n);
-    for (double v : a) { cx.hash.addd(v); }
+    for (R v : a) { cx.hash.addd(v); }
     cx.hash.addd(x);
     if (n >= 1) { cx.rep->nontrivial = true; }
     cx.log("poly n=%u x=%.17g\n", n, x);
     // exact-size heap copy
-    double *p = (double *)malloc(sizeof(double) * (n ? n : 1));
-    struct F { double *p; ~F() { free(p); } } fr{p};
-    memcpy(p, a.data(), sizeof(double) * n);
+    R *p = (R *)malloc(sizeof(R) * (n ? n : 1));
+    struct F { R *p; ~F() { free(p); } } fr{p};
+    memcpy(p, a.data(), sizeof(R) * n);
     Q qx(x), up = 0, down = 0, sa = 0;
     for (unsigned i = 0; i < n; ++i)
     {
@@ -347,23 +351,23 @@ static void case_poly(Tape &t, Ctx &cx)
     }
     Q sd = 0;
     for (unsigned i = 0; i < n; ++i) { sd += abs(Q(a[i]) * qpow(qx, n - 1 - i)); }
-    double e1 = a_poly_eval(p, n, x), e2 = a_poly_evar(p, n, x);
-    double b1 = (2.0 * n + 2) * U_ * qabs_d(sa) * 2 + 1e-300, b2 = (2.0 * n + 2) * U_ * qabs_d(sd) * 2 + 1e-300;
+    R e1 = a_poly_eval(p, n, x), e2 = a_poly_evar(p, n, x);
+    double b1 = (2.0 * n + 2) * U_ * qabs_d(sa) * 2 + FLOOR_, b2 = (2.0 * n + 2) * U_ * qabs_d(sd) * 2 + FLOOR_;
     VP_CHECK(cx, qabs_d(Q(e1) - up) <= b1, "poly:eval", "a_poly_eval(n=%u, x=%.17g) = %.17g, exact ascending-order value %.17g", n, x, e1, up.get_d());
     VP_CHECK(cx, qabs_d(Q(e2) - down) <= b2, "poly:evar", "a_poly_evar(n=%u, x=%.17g) = %.17g, exact descending-order value %.17g", n, x, e2, down.get_d());
     if (n)
     {
-        double f1 = a_poly_eval_(p, p + n, x), f2 = a_poly_evar_(p, p + n, x);
+        R f1 = a_poly_eval_(p, p + n, x), f2 = a_poly_evar_(p, p + n, x);
         VP_CHECK(cx, f1 == e1 && f2 == e2, "poly:pointer_form", "pointer-pair forms disagree with the counted forms");
     }
     // order reversal: involution, and evar(swap(a)) == eval(a) bit for bit
     a_poly_swap(p, n);
-    for (unsigned i = 0; i < n; ++i) { VP_CHECK(cx, memcmp(&p[i], &a[n - 1 - i], 8) == 0, "poly:swap", "a_poly_swap: element %u of %u is wrong", i, n); }
-    double e3 = a_poly_evar(p, n, x), e4 = a_poly_eval(p, n, x);
-    VP_CHECK(cx, memcmp(&e3, &e1, 8) == 0, "poly:evar_of_swap", "a_poly_evar(swap(a)) = %.17g but a_poly_eval(a) = %.17g (n=%u)", e3, e1, n);
-    VP_CHECK(cx, memcmp(&e4, &e2, 8) == 0, "poly:eval_of_swap", "a_poly_eval(swap(a)) = %.17g but a_poly_evar(a) = %.17g (n=%u)", e4, e2, n);
+    for (unsigned i = 0; i < n; ++i) { VP_CHECK(cx, memcmp(&p[i], &a[n - 1 - i], sizeof(R)) == 0, "poly:swap", "a_poly_swap: element %u of %u is wrong", i, n); }
+    R e3 = a_poly_evar(p, n, x), e4 = a_poly_eval(p, n, x);
+    VP_CHECK(cx, memcmp(&e3, &e1, sizeof(R)) == 0, "poly:evar_of_swap", "a_poly_evar(swap(a)) = %.17g but a_poly_eval(a) = %.17g (n=%u)", e3, e1, n);
+    VP_CHECK(cx, memcmp(&e4, &e2, sizeof(R)) == 0, "poly:eval_of_swap", "a_poly_eval(swap(a)) = %.17g but a_poly_evar(a) = %.17g (n=%u)", e4, e2, n);
     a_poly_swap(p, n);
-    VP_CHECK(cx, n == 0 || memcmp(p, a.data(), sizeof(double) * n) == 0, "poly:swap_involution", "a_poly_swap twice is not the identity (n=%u)", n);
+    VP_CHECK(cx, n == 0 || memcmp(p, a.data(), sizeof(R) * n) == 0, "poly:swap_involution", "a_poly_swap twice is not the identity (n=%u)", n);
 }
 
 static void run_case(Tape &t, Ctx &cx)
